@@ -24,6 +24,11 @@ pub fn err_fn(log: &mut Log, i: usize) -> Result<i32, String> {
     Err(format!("boom{i}"))
 }
 
+/// Called in the caller's scope after the annotated call has returned (or unwound): the local context
+/// must be the caller's again.
+#[fastrace::trace(name = "after")]
+pub fn after_traced() {}
+
 #[fastrace::trace(name = "inner")]
 pub fn inner_traced(log: &mut Log, i: usize) {
     log.push(format!("in:{i}"));
@@ -102,6 +107,7 @@ pub fn traced_run(with_parent: bool, f: &mut dyn FnMut()) -> (Vec<SpanRecord>, u
         {
             let _g = root.set_local_parent();
             f();
+            after_traced();
         }
         drop(root);
     } else {
